@@ -765,7 +765,7 @@ def gen_negdim(rng, k):
                                                  "minb": 2})
         if c["dim"] < 0:
             break
-    if k % 3 == 1:
+    if k % 5 in (1, 3):
         c["script"] = True
     if k % 7 == 3:
         c["kwcall"] = True
@@ -774,8 +774,8 @@ def gen_negdim(rng, k):
 
 def gen_alias(rng, k):
     """value IS the key tensor (the call of the class documentation: attention(h, encoded, encoded, mask))"""
-    fl = ["dot", "general", "concat", "mha"][k % 4]
-    c = gen_case(rng, fl, negdim=(k % 5 == 0), opts={"alias": True})
+    fl = ["dot", "general", "mha", "concat", "mha"][k % 5]
+    c = gen_case(rng, fl, negdim=(k % 4 == 0), opts={"alias": True})
     c["alias_kv"] = True
     if k % 3 == 2:
         c["script"] = True
@@ -886,7 +886,7 @@ def _slice_axis(case, name, shape_key, den_axis, keep):
     case[shape_key] = list(arr.shape)
 
 
-def _cands(case):
+def _cands0(case):
     if case.get("malformed"):
         return
     r = len(case["kshape"])
@@ -908,7 +908,7 @@ def _cands(case):
             if mj >= 0 and c["mshape"][mj] == n:
                 _slice_axis(c, "mask", "mshape", mj, n - 1)
         yield c
-    if case["flavour"] != "mha" and case["vshape"][-1] > 1:
+    if case["flavour"] != "mha" and case["vshape"][-1] > 1 and not case.get("alias_kv"):
         c = json.loads(json.dumps(case))
         _slice_axis(c, "v", "vshape", r - 1, case["vshape"][-1] - 1)
         yield c
@@ -923,13 +923,29 @@ def _cands(case):
             yield c
 
 
+def _cands(case):
+    """candidates of _cands0; for value-is-key cases the value stays the key's data, and the way a case enters the module
+    (scripted / traced / keyword call) is dropped last"""
+    for c in _cands0(case):
+        if c.get("alias_kv"):
+            c["v"], c["vshape"] = [x * (VD // QD) for x in c["k"]], list(c["kshape"])
+        yield c
+    if not case.get("malformed"):
+        for flag in ("kwcall", "trace", "script"):
+            if case.get(flag):
+                c = json.loads(json.dumps(case))
+                c.pop(flag)
+                yield c
+
+
 # ----------------------------------------------------------------------------------------
 # run / replay
 # ----------------------------------------------------------------------------------------
 def evaluate(chk, cases, tag="cases"):
     results = [run_impl(c) for c in cases]
     terms = [model_term(c, r) for c, r in zip(cases, results)]
-    oks = coq_eval_bools(chk.workdir, IMPORTS, terms, shard=40, tag=tag)
+    # one wave of coqc processes on the 16 workers of coq_eval_bools (at least 40 cases each)
+    oks = coq_eval_bools(chk.workdir, IMPORTS, terms, shard=max(40, -(-len(terms) // 16)), tag=tag)
     return results, oks
 
 
@@ -1030,7 +1046,7 @@ def run(chk, cases=None):
             c = gen_negdim(arng, i)
             c["stream"] = "negative-dim"
             cases.append(c)
-        for i in range(160 if thorough else 28):
+        for i in range(180 if thorough else 30):
             c = gen_alias(arng, i)
             c["stream"] = "value-is-key"
             cases.append(c)
